@@ -62,6 +62,7 @@ pub struct ObjectReceiver {
     a_large: u64,
     a_small: u64,
     nb_a_large: u64,
+    nb_blocks: u64,
     object_writer_builder: Rc<dyn ObjectWriterBuilder>,
     object_writer: Option<ObjectWriterSession>,
     block_writer: Option<BlockWriter>,
@@ -107,6 +108,7 @@ impl ObjectReceiver {
             a_large: 0,
             a_small: 0,
             nb_a_large: 0,
+            nb_blocks: 0,
             object_writer_builder,
             object_writer: None,
             block_writer: None,
@@ -199,6 +201,16 @@ impl ObjectReceiver {
 
         if payload_id.sbn < self.blocks_offset as u32 {
             // already completed
+            return Ok(());
+        }
+
+        if payload_id.source_block_length.is_none() && payload_id.sbn as u64 >= self.nb_blocks {
+            // The block partitioning has no such block, its length cannot be computed
+            log::warn!(
+                "Discard pkt with SBN {}, object has {} blocks",
+                payload_id.sbn,
+                self.nb_blocks
+            );
             return Ok(());
         }
 
@@ -755,6 +767,7 @@ impl ObjectReceiver {
         self.a_large = a_large;
         self.a_small = a_small;
         self.nb_a_large = nb_a_large;
+        self.nb_blocks = nb_blocks;
 
         self.blocks_variable_size =
             oti.fec_encoding_id == oti::FECEncodingID::ReedSolomonGF28UnderSpecified;
